@@ -21,7 +21,6 @@ import (
 	"com.tuntun.rangers/node/src/common/ed25519"
 	"errors"
 	"fmt"
-	"math"
 	"math/big"
 
 	"com.tuntun.rangers/node/src/consensus/base"
@@ -87,6 +86,11 @@ func validateProve(prove vrf.VRFProve, height, workingMiners, totalStake uint64)
 	}
 
 	stakeRatio := calcStakeRatio(difficulty, totalStake)
+	if stakeRatio.Sign() <= 0 {
+		// difficulty 0 (more working miners than stake): nothing qualifies
+		stdLogger.Errorf("stake ratio is 0! total stake %d, working miners %d", totalStake, workingMiners)
+		return false, 0
+	}
 	ok = vrfValueRatio.Cmp(stakeRatio) < 0
 	qn = calQn(vrfValueRatio, stakeRatio)
 
@@ -127,9 +131,14 @@ func calQn(vrfValueRatio, stakeRatio *big.Rat) uint64 {
 	}
 	maxQn := new(big.Rat).SetInt64(int64(model.Param.MaxQN))
 	step := new(big.Rat).Quo(stakeRatio, maxQn)
-	r, _ := new(big.Rat).Quo(vrfValueRatio, step).Float64()
-	qn := uint64(math.Floor(r) + 1)
-	return qn
+	// exact floor(value/step)+1, never above MaxQN (a float64 quotient rounds
+	// values just below a threshold up to the threshold)
+	q := new(big.Rat).Quo(vrfValueRatio, step)
+	n := new(big.Int).Quo(q.Num(), q.Denom())
+	if !n.IsUint64() || n.Uint64() >= uint64(model.Param.MaxQN) {
+		return uint64(model.Param.MaxQN)
+	}
+	return n.Uint64() + 1
 }
 
 func tryZeroPadding(pi vrf.VRFProve) vrf.VRFProve {
